@@ -193,8 +193,8 @@ def main(tier, seed):
         plans = [dict(k=3, max_gens=2, max_edits=1, pool="p", sf2=False), dict(k=2, max_gens=2, max_edits=1, pool="p"),
                  dict(k=3, max_gens=2, max_edits=0, pool="t", sf2=False)]
     else:
-        plans = [dict(k=3, max_gens=3, max_edits=1, pool="p", sf2=False), dict(k=4, max_gens=2, max_edits=1, pool="p"),
-                 dict(k=5, max_gens=2, max_edits=0, pool="p", sf2=False),
+        plans = [dict(k=3, max_gens=3, max_edits=1, pool="p", sf2=False), dict(k=3, max_gens=2, max_edits=1, pool="p"),
+                 dict(k=4, max_gens=2, max_edits=0, pool="p", sf2=False),
                  dict(k=3, max_gens=2, max_edits=1, pool="x", rich=True), dict(k=4, max_gens=3, max_edits=1, pool="t", sf2=False)]
     tot = {"states": 0, "transitions": 0}
     runs = []
